@@ -167,6 +167,7 @@ def run_net(tier, seed, workers):
 def replay(d):
     ctx = make_ctx(d['item'])
     c = Counter()
+    explore.warm(ctx, d)
     if d.get('policy'):
         x = explore.run_once(ctx, [], policy=prims.FairPolicy() if d['policy'][1] == '@fair' else prims.PriorityPolicy(d['policy'][1]))
         ctx.judge(x, c, d['policy'])
